@@ -192,7 +192,7 @@ Definition slwin_record (wins : list (nat * nat)) (fs gs : list bytes) (nb nf : 
             (sl_emit_center g2 (sl_out s))
   end.
 
-(* end of stream: every logged record in arrival order: Ingest(nil) on its group's window, then (fix: b0d126048) up to
+(* end of stream: every logged record in arrival order: Ingest(nil) on its group's window, then (fix: 1cf092ed2) up to
    [nf] more times while the centre is empty, handleDrainRecord *)
 Fixpoint sl_shift_to_center (n nb : nat) (g : slgroup) : slgroup :=
   match n with
